@@ -96,7 +96,9 @@ def dist2 (px py ax ay bx b_y : Rat) : Rat :=
 
 /-- the property's tolerance for a traced end: the result is rounded to whole pixels (≤ 0.71 px off) after a float32
     truncation, and curved outlines are compared through a polyline -/
-def traceTol : Rat := 1
+/- both the traced end (`math.Round` after a float32 truncation) and the points of the drawn SVG path (`chopPrecision`)
+   are whole pixels: 0.71 px each -/
+def traceTol : Rat := 3 / 2
 
 def handleTrace (i o : Json) : Except String Verdict := do
   let typ ← getStr i "type"
@@ -128,7 +130,9 @@ def handleTrace (i o : Json) : Except String Verdict := do
           | _ => m) (1000000000 : Rat)
         if !decide (best ≤ traceTol * traceTol) then
           -- the function fell back to the (rounded) point on the box: its extended segment met no outline element
-          let sig := if x == roundR rx && y == roundR ry then "trace-no-intersection" else "trace-off-outline"
+          -- (known finding: the segment is extended by the box WIDTH, too short on shapes that are taller than wide;
+          --  on any other box the fallback is reported as an ordinary off-outline violation)
+          let sig := if x == roundR rx && y == roundR ry && decide (bw < bh) then "trace-no-intersection" else "trace-off-outline"
           return .specfalse s!"{sig}:{typ}" s!"box {box} approach {a}: traced ({x},{y}) from border point ({rx},{ry}), squared distance to the outline {best}"
     | _ => throw "bad trace result"
   return .ok
